@@ -6,7 +6,8 @@ TITLE = "Alignment results do not depend on the MIP back-end"
 DECIDING = ["M-SOLVER", "M-PART", "M-COVER", "M-EQ"]
 LEVEL = "exploration"
 RULE = ("every case = one continuum (small to medium: up to 2x40, 3x12, 4x6, 5x4 units; plus a block of 2x~180 and 3x~40 dense "
-        "continua with 10 000 - 50 000 candidate unitary alignments) and one pooled dissimilarity, "
+        "continua with 10 000 - 50 000 candidate unitary alignments, plus a sweep of 3-annotator continua through the point where a "
+        "triple and a pair + singleton cost the same, in steps of 1/256) and one pooled dissimilarity, "
         "aligned (best and soft) under three solver configurations: cylp importable (CBC), `import cylp` raising "
         "ImportError (GLPK), CBC raising cvxpy.SolverError (fault injection, GLPK); a spy on cvxpy.Problem.solve "
         "proves which solver ran; non-trivial = >= 2 units and >= 2 non-empty annotators; distinct by SHA-1")
@@ -74,6 +75,23 @@ def run(ctx):
         case = {"continuum": cspec, "dissim": big_d[(i // 2) % 2]}
         ctx.begin_case(case)
         ctx.observe("family", "large-candidate-table")
+        check_case(ctx, case)
+    # near-ties: two annotators agree on a unit, a third one places the same unit at a distance swept finely through the
+    # point where "one unitary alignment of three" and "a pair plus a singleton" cost the same (2*(2x/2u)^2 = 5 delta_empty:
+    # x = u*sqrt(2.5); measured on the unchanged library).  Whichever side of the tie a case is on, every back-end must return the cheaper alignment: a
+    # secondary criterion (fewest unitary alignments, perturbed costs) may only act on exact ties
+    k_all = list(range(-48, 49))
+    for k in k_all:
+        if (k + 48) % max(1, ctx.nshards // 2) != (ctx.shard // 2) % max(1, ctx.nshards // 2):
+            continue
+        u = 8.0
+        x = round(u * 2.5 ** 0.5 * 256) / 256 + k / 256.0
+        names3 = cases.ANNOTATOR_NAMES[:3]
+        order = rng.sample(names3, 3)
+        ann = {order[0]: [[0.0, u, "a"], [40.0, 44.0, "b"]], order[1]: [[0.0, u, "a"], [40.0, 44.5, "b"]], order[2]: [[x, x + u, "a"], [40.5, 44.0, "b"]]}
+        case = {"continuum": {"ann": {a: ann[a] for a in names3}, "family": "near-tie"}, "dissim": big_d[(k + 48) % 2]}
+        ctx.begin_case(case)
+        ctx.observe("family", "near-tie-sweep")
         check_case(ctx, case)
     for _ in range(ctx.scale(150, 3000)):
         if ctx.out_of_time():
